@@ -8,8 +8,8 @@ CONSTANTS
   MemberMenu = {{"a1", "a2"}, {"a3"}}
   MinDur = 1
   MaxDur = 3
-  Period = 1
-  CreatePeriod = 2
+  PeriodSet = {1}
+  CreateSet = {2}
   FeeSet = {0, 2}
   DtSet = {1}
   LimitSet = {0, 3, 4, 5}
